@@ -270,9 +270,10 @@ MidMonoOK(prev, new) == \A r \in Res : Amount(new, r) <= Amount(prev, r)
 (* Part 1d.  Reconciler level: what the node object carries after one      *)
 (* NodeResourceReconciler.Reconcile.                                       *)
 (*   i   = batch input record + nm ("present" | "missing") + diff (0..100) *)
-(*   pub = [alloc |-> [cpu |-> [has, q], mem |-> [has, q]],                *)
-(*          cap   |-> [cpu |-> [has, q], mem |-> [has, q]]]                *)
-(*         batch-cpu / batch-memory in node.status.allocatable / capacity  *)
+(*   pub = [alloc |-> [cpu |-> n, mem |-> n], cap |-> [cpu |-> n, mem |-> n]]*)
+(*         batch-cpu / batch-memory in node.status.allocatable / capacity, *)
+(*         n = 0 when the resource is absent from the node ("withdrawn" =  *)
+(*         absent or zero: either way nothing can be scheduled on it)      *)
 (* "stale node metrics withdraw the resource instead of freezing an old    *)
 (* value": after a reconcile that found no NodeMetric object, one that was *)
 (* never updated or one older than the degrade time, the node publishes    *)
@@ -286,14 +287,14 @@ MidMonoOK(prev, new) == \A r \in Res : Amount(new, r) <= Amount(prev, r)
 (***************************************************************************)
 Sides == {"alloc", "cap"}
 RStale(i) == i.nm = "missing" \/ Stale(i)
-PubAbsent(pub, r) == \A sd \in Sides : ~pub[sd][r].has \/ pub[sd][r].q = 0
+PubAbsent(pub, r) == \A sd \in Sides : pub[sd][r] = 0
 PubWithdrawn(pub) == \A r \in Res : PubAbsent(pub, r)
-PubNonNegOK(pub)  == \A sd \in Sides, r \in Res : pub[sd][r].has => pub[sd][r].q >= 0
+PubNonNegOK(pub)  == \A sd \in Sides, r \in Res : pub[sd][r] >= 0
 PubStaleOK(i, pub) == RStale(i) => PubWithdrawn(pub)
 PubBoundOK(i, pub) ==
-  \A sd \in Sides, r \in Res : pub[sd][r].has =>
-     /\ pub[sd][r].q <= Bound(i, r)
-     /\ i.pct[r] >= 0 => pub[sd][r].q <= PctFloor(i.cap[r], i.pct[r])
+  \A sd \in Sides, r \in Res :
+     /\ pub[sd][r] <= Bound(i, r)
+     /\ i.pct[r] >= 0 => pub[sd][r] <= PctFloor(i.cap[r], i.pct[r])
 PubOK(i, pub, exact) ==
   /\ PubNonNegOK(pub)
   /\ PubStaleOK(i, pub)
@@ -376,7 +377,7 @@ ReconImpl(i, prev, expired) ==  \* prev, result: [cpu |-> [has, q], mem |-> [has
       want  == [r \in Res |-> Prepared(items[r])]
       sync  == expired \/ \E r \in Res : QDiff(prev[r], want[r], i.diff)
   IN IF sync THEN want ELSE prev
-PubOf(n) == [alloc |-> n, cap |-> n]
+PubOf(n) == LET amt == [r \in Res |-> IF n[r].has THEN n[r].q ELSE 0] IN [alloc |-> amt, cap |-> amt]
 
 \* mid tier (CalculateMidResourceByStaticMode / CalculateMidResourceByPolicy)
 MidImplRes(m, r) ==
